@@ -3,7 +3,7 @@
    it reads names off the syntax tree of the types. *)
 From Coq Require Import String Ascii.
 From Coq Require Import List Arith Bool.
-Require Import TT.Model.Base TT.Model.Str TT.Model.C07TypeParse TT.Model.Harvest TT.Model.C07Worklist TT.Model.C07Reach.
+Require Import TT.Model.Base TT.Model.Str TT.Model.C07TypeParse TT.Model.C07Harvest TT.Model.C07Worklist TT.Model.C07Reach.
 Require Import TT.Spec.TsLex TT.Spec.TsModule TT.Spec.TsObs.
 Import ListNotations.
 Local Open Scope list_scope.
@@ -159,10 +159,6 @@ Fixpoint has_result2 (t : rty) : bool :=
 
 Definition kf_c07_result_map (p : project) : bool := existsb (fun t => kf_result_ok_has_comma (rty_of t)) (all_types p).
 Definition kf_c07_tuple_generic (p : project) : bool := existsb (fun t => kf_tuple_elem_has_comma (rty_of t)) (all_types p).
-Definition kf_c07_result_alias (p : project) : bool := existsb (fun t => kf_result_one_arg (rty_of t)) (all_types p).
-(* some type is reachable only through the fields of an event payload type *)
-Definition kf_c07_event_nested (p : project) : bool :=
-  negb (subset_b (reachable_spec p) (reach_from p (command_roots p) ++ event_roots p)).
 Definition kf_c07_field_result (p : project) : bool := existsb (fun t => has_result2 (rty_of t)) (field_types p).
 (* a serde type whose name the harvester's final test rejects (lower-case or underscore initial, or a
    name of the built-in table) is never looked for *)
@@ -225,12 +221,6 @@ Definition ord_ok (o : orders) : Prop :=
 
 Definition reach_from_opt (p : project) (roots : list str) : option (list str) :=
   work str_dec (spec_succ p) (spec_defined p) (spec_defined p) (spec_fuel p roots) roots [].
-Definition kf_c07_event_nested_opt (p : project) : option bool :=
-  match reach_from_opt p (command_roots p ++ event_roots p), reach_from_opt p (command_roots p) with
-  | Some a, Some b => Some (negb (subset_b a (b ++ event_roots p)))
-  | _, _ => None
-  end.
-
 (* agreement of the three readers of type strings on the defined names of the project: a decidable
    premise of C07_exact (evaluated on every generated case; implied by the complement of the
    syntactic classes, see C07_agree_partial) *)
